@@ -50,7 +50,7 @@ def _gen_script(r: random.Random, maxlen: int) -> list:
         if not in_txn and x > 0.9:
             s.append([r.choice(["commit", "rollback"]), r.randint(0, 1), r.choice(["sql", "api"])])
             continue
-        s.append([r.choice(["ins_own", "ins_own", "ins_sh", "ins_sh", "upd_own", "del_own", "fail", "sel", "merge_own", "wp_own", "with_block", "with_block_exc", "execmany_own", "execmany_fail"]), r.randint(0, 1)])
+        s.append([r.choice(["ins_own", "ins_own", "ins_sh", "ins_sh", "upd_own", "del_own", "fail", "sel", "merge_own", "wp_own", "with_block", "with_block_exc", "execmany_own", "execmany_fail", "execmany_runtime_fail", "script_fail"]), r.randint(0, 1)])
     return s
 
 
@@ -92,6 +92,11 @@ def gen_cases(tier: str, seed: int):
     sx = [["ins_own", 0], ["execmany_fail", 0], ["ins_own", 1], ["execmany_own", 0], ["rollback", 0, "sql"], ["sel", 0], ["begin", 0], ["execmany_own", 1], ["execmany_fail", 0],
           ["ins_own", 0], ["commit", 1, "api"]]
     yield {"scripts": [sx, [["sel", 0], ["ins_sh", 0]]], "order": [0] * 6 + [1] + [0] * 5 + [1]}
+    for first in ("execmany_runtime_fail", "script_fail"):
+        for c in (0, 1):
+            sy = [["ins_own", 0], [first, c], ["ins_own", 1], ["rollback", 0, "sql"], ["sel", 0], ["begin", 0], ["ins_own", 0], [first, c], ["ins_own", 1],
+                  ["rollback", 1, "api"], ["begin", 0], ["upd_own", 0], [first, c], ["ins_own", 0], ["commit", 0, "sql"]]
+            yield {"scripts": [sy, [["sel", 0], ["ins_sh", 0], ["sel", 0]]], "order": [0] * 5 + [1] + [0] * 6 + [1] + [0] * 4 + [1]}
     npairs = 40 if tier == "quick" else 1200
     for _ in range(npairs):
         scripts = [_gen_script(r, 4), _gen_script(r, 4)]
@@ -363,6 +368,47 @@ def run_case(case: dict, env: core.Env) -> None:
                 env.witness("C13/fail-statement-succeeded", "executemany into a missing table")
             except Exception:  # noqa: BLE001
                 pass
+        elif kind == "execmany_runtime_fail":
+            # an executemany one of whose rows is refused while it runs (a value the column cannot take, or a row that is too
+            # short).  In autocommit the session is in autocommit afterwards as well: whether the rows before the bad one were
+            # kept is not asserted (the connector sends one multi-row INSERT, the fake one INSERT per row) - the table holds all
+            # of them or none - but every later statement is again visible to the others at once and stays after a ROLLBACK.
+            # Inside a transaction a run-time failure is the listed finding (the engine aborts the transaction), so the
+            # compile-time failure is used there.
+            if txn[ci] is not None:
+                try:
+                    conns[ci].cursor().executemany("INSERT INTO no_such_table_c13 VALUES (%s, %s)", [(1, 1), (2, 2)])
+                    env.witness("C13/fail-statement-succeeded", "executemany into a missing table")
+                except Exception:  # noqa: BLE001
+                    pass
+            else:
+                r1 = (next(_state["uid"]), ci)
+                bad_rows = [[r1, ("not a number", 1)], [r1, (5,)]][cidx]
+                try:
+                    conns[ci].cursor().executemany(f"INSERT INTO {P}{own} VALUES (%s, %s)", bad_rows)
+                    env.witness("C13/fail-statement-succeeded", f"executemany {bad_rows}")
+                except Exception:  # noqa: BLE001
+                    pass
+                env.count("runtime_failing_executemany_in_autocommit")
+                got_now = Counter(tuple(x) for x in raw.execute(f"select ID, V from DB1.S1.{own}").fetchall())
+                if got_now == _apply(committed[own], ("ins", r1)):
+                    committed[own] = got_now
+                # (if it is neither, the committed-view monitor below reports it)
+                # the follow-up shows whether the session still commits by itself
+                row = (next(_state["uid"]), ci)
+                out = run(f"INSERT INTO {P}{own} VALUES ({row[0]}, {row[1]})")
+                write(own, ("ins", row))
+        elif kind == "script_fail":
+            # a script that fails to compile at its second statement: the first is applied like any statement of the session
+            # (inside the open transaction, or committed at once), the rest is not run, and an open transaction stays open
+            row = (next(_state["uid"]), ci)
+            later = next(_state["uid"])
+            try:
+                conns[ci].execute_string(f"INSERT INTO {P}{own} VALUES ({row[0]}, {row[1]}); SELECT * FROM no_such_table_c13; INSERT INTO {P}{own} VALUES ({later}, 0)")
+                env.witness("C13/fail-statement-succeeded", "script with a missing table")
+            except Exception:  # noqa: BLE001
+                pass
+            write(own, ("ins", row))
         elif kind == "upd_own":
             out = run(f"UPDATE {P}{own} SET V = V + 1")
             write(own, ("upd",))
